@@ -138,6 +138,10 @@ def replay(rec: Dict[str, Any]) -> List[Tuple[str, Dict[str, Any], str]]:
             base = untag(dt["doc"])
             exp = [canon(v) for v in rec["res"][d]]
             forms = [("parsed", lambda: untag(dt["doc"]))]
+            if isinstance(base, str):
+                # a string document: decoded once, whichever way it comes in (never "parsed": a str argument is JSON text)
+                forms = [("string-as-json-text", lambda: json.dumps(base)), ("string-in-a-file", lambda: io.StringIO(json.dumps(base))),
+                         ("string-in-a-bytes-file", lambda: io.BytesIO(json.dumps(base).encode()))]
             if isinstance(base, (list, dict)):
                 forms += [("json-text", lambda: json.dumps(base)), ("file", lambda: io.StringIO(json.dumps(base))),
                           ("json-text-indented", lambda: "\n  " + json.dumps(base, indent=2) + "\n"), ("file-bytes", lambda: io.BytesIO(json.dumps(base).encode())),
